@@ -169,6 +169,7 @@ std::vector<DevEv> extract(const RunData& rd, hz::RunResult* res) {
   int txFirst = -1;
   std::deque<DevEv> fifo;   // symbols read but not yet looked at by the protocol layer
   int64_t lastOpenT = -(1LL << 60);
+  bool readErrPending = false;
   auto flush = [&]() { while (!fifo.empty()) { DevEv d = fifo.front(); fifo.pop_front(); d.lastOfChunk = fifo.empty(); out.push_back(d); } };
   for (size_t i = 0; i < rd.hist.evs.size(); i++) {
     const Ev& e = rd.hist.evs[i];
@@ -206,6 +207,7 @@ std::vector<DevEv> extract(const RunData& rd, hz::RunResult* res) {
         break;
       case sim::EV_RXSYM:
       case sim::EV_TXSYM: {
+        if (e.kind == sim::EV_RXSYM) readErrPending = false;
         // a TXSYM marker matters only for the enhanced device (STARTED is notified as a sent symbol)
         if (e.kind == sim::EV_TXSYM && !(rd.bc.enhanced && !fifo.empty() && fifo.front().type == DevEv::RX && fifo.front().arb == refenh::ARB_WON)) break;
         // release everything up to and including the symbol ebusd is looking at now
@@ -248,7 +250,12 @@ std::vector<DevEv> extract(const RunData& rd, hz::RunResult* res) {
         // read errors and early poll returns are retried by the transport; the others are device errors known to ebusd
         if (e.s == "writeerr" || e.s == "writeshort" || e.s == "pollerr" || e.s == "pollhup" || e.s == "polleintr" ||
             e.s == "hup") { d.type = DevEv::IOERR; out.push_back(d); }
-        else { d.type = DevEv::OTHER; out.push_back(d); }
+        else {
+          // a failed read is retried by the device layer until its deadline; when the deadline has passed meanwhile, ebusd
+          // sees a timeout although the poll before reported data: accepted when ebusd itself reports the timeout next
+          if (e.s == "readerr" || e.s == "readeintr" || e.s == "readzero") readErrPending = true;
+          d.type = DevEv::OTHER; out.push_back(d);
+        }
         break;
       case sim::EV_CLOSE: fifo.clear(); d.type = DevEv::CLOSED; rxDec.reset(); txFirst = -1; out.push_back(d); break;
       case sim::EV_OPEN: lastOpenT = e.t; fifo.clear(); d.type = DevEv::OPENED; rxDec.reset(); txFirst = -1; out.push_back(d); break;
@@ -259,6 +266,7 @@ std::vector<DevEv> extract(const RunData& rd, hz::RunResult* res) {
         // enhanced device: a deadline that expires while only the first half of a two byte sequence has arrived is a
         // timeout for ebusd although no poll timed out; ebusd's own timeout report is accepted in exactly that situation
         if (rd.bc.enhanced && e.b == -5 && rxDec.pendingFirst()) { d.type = DevEv::TIMEOUT; out.push_back(d); }
+        else if (e.b == -5 && readErrPending) { readErrPending = false; d.type = DevEv::TIMEOUT; out.push_back(d); res->counters["l1.timeout_after_read_error"]++; }
         break;
       case sim::EV_REQUEST:
       case sim::EV_MESSAGE:
@@ -925,6 +933,12 @@ void Monitor::run() {
     if (info.kind == "fire" && s.finalNotified && !s.destroyed && rd.handlerDeleted) {
       DevEv d; d.t = rd.endT;
       violate("C04", "request-leaked", "fire", d, "a completed fire-and-forget request was never destroyed");
+    }
+    if (!done && rd.endT - std::max(rd.lastFaultT, info.submitT) < rd.settleNs - 1000000000LL) {
+      // the run ended (hard limit) before the liveness bound had elapsed for this request: not decided
+      allDone = false;
+      res->counters["c04.undecided_at_end"]++;
+      continue;
     }
     if (!done) {
       allDone = false;
